@@ -268,10 +268,10 @@ func (x *X) Node(i uint64) []byte {
 		panic("ref/blake2: node offset overflow")
 	}
 	p := make([]byte, a.ParamLen())
-	p[0] = byte(dl) // digest length
-	p[1] = 0        // key length 0 (even when the root was keyed)
-	p[2] = 0        // fanout 0
-	p[3] = 0        // depth 0
+	p[0] = byte(dl)    // digest length
+	p[1] = 0           // key length 0 (even when the root was keyed)
+	p[2] = 0           // fanout 0
+	p[3] = 0           // depth 0
 	p[4] = byte(a.Out) // leaf length = Out (32-bit LE)
 	for k := 0; k < 4; k++ {
 		p[8+k] = byte(i >> (8 * uint(k))) // node offset (32 bit)
